@@ -66,7 +66,29 @@ func (c *capture) sink(w *ecs.World, e ecs.EntityEvent) {
 type subSpec struct {
 	subs    int
 	comps   []int
-	addedAt int // op index from which the sub-listener is installed (0: from the start)
+	addedAt int  // op index from which the sub-listener is installed (0: from the start)
+	empty   bool // a component restriction that is given but empty (needs a hand-written Listener)
+}
+
+// maskListener is a hand-written ecs.Listener whose Components() returns exactly the mask it was given,
+// including an empty, non-nil one (listener.NewCallback cannot express that).
+type maskListener struct {
+	cb   func(w *ecs.World, e ecs.EntityEvent)
+	subs event.Subscription
+	mask ecs.Mask
+}
+
+func (l *maskListener) Notify(w *ecs.World, e ecs.EntityEvent) { l.cb(w, e) }
+func (l *maskListener) Subscriptions() event.Subscription      { return l.subs }
+func (l *maskListener) Components() *ecs.Mask                  { return &l.mask }
+
+// mkListener builds the listener for a spec.
+func mkListener(b *Sess, sp subSpec, sink func(w *ecs.World, e ecs.EntityEvent)) ecs.Listener {
+	if sp.empty || (len(sp.comps) > 0 && len(sp.comps)%2 == 0) {
+		return &maskListener{cb: sink, subs: event.Subscription(sp.subs), mask: ecs.All(b.ids(sp.comps)...)}
+	}
+	cb := listener.NewCallback(sink, event.Subscription(sp.subs), b.ids(sp.comps)...)
+	return &cb
 }
 
 func expectedFor(ref *Sess, sp subSpec) (map[int][]string, int, int) {
@@ -75,7 +97,7 @@ func expectedFor(ref *Sess, sp subSpec) (map[int][]string, int, int) {
 	for op, evs := range ref.RecAll {
 		for i := range evs {
 			total++
-			if op >= sp.addedAt && selects(sp.subs, sp.comps, &evs[i]) {
+			if op >= sp.addedAt && !sp.empty && selects(sp.subs, sp.comps, &evs[i]) {
 				exp[op] = append(exp[op], evKey(ref, &evs[i]))
 				n++
 			}
@@ -154,6 +176,9 @@ func caseC12(c *Ctx) {
 				if comp%2 == 0 && len(sp.comps) == 0 {
 					sp.comps = Pick(c.R, choices[1:])
 				}
+				if c.R.Chance(0.1) {
+					sp.comps, sp.empty = nil, true
+				}
 				// every fourth composition starts as an empty Dispatch: all of its sub-listeners are added later
 				if (i > 0 || comp%4 == 1) && (c.R.Chance(0.4) || comp%4 == 1) {
 					sp.addedAt = 1 + c.R.Intn(len(ref.Log)-1)
@@ -162,13 +187,13 @@ func caseC12(c *Ctx) {
 			}
 			b := NewSess(ref.Cfg0, Opts{NoTrans: true})
 			caps := make([]*capture, k)
-			cbs := make([]listener.Callback, k)
+			cbs := make([]ecs.Listener, k)
 			initial := []ecs.Listener{}
 			for i, sp := range specs {
 				caps[i] = &capture{s: b, byOp: map[int][]string{}}
-				cbs[i] = listener.NewCallback(caps[i].sink, event.Subscription(sp.subs), b.ids(sp.comps)...)
+				cbs[i] = mkListener(b, sp, caps[i].sink)
 				if sp.addedAt == 0 {
-					initial = append(initial, &cbs[i])
+					initial = append(initial, cbs[i])
 				}
 			}
 			d := listener.NewDispatch(initial...)
@@ -181,7 +206,7 @@ func caseC12(c *Ctx) {
 			for opi, op := range ref.Log {
 				for i, sp := range specs {
 					if sp.addedAt == opi && opi > 0 {
-						d.AddListener(&cbs[i])
+						d.AddListener(cbs[i])
 						if comp%4 == 3 {
 							// an outer Dispatch caches the union of its members: rebuild it, as a user would
 							outer := listener.NewDispatch(&d)
@@ -222,10 +247,12 @@ func caseC12(c *Ctx) {
 				} else if c.R.Chance(0.3) {
 					sp.comps = Pick(c.R, choices)
 				}
+				if k == 1 && subs%8 == 5 {
+					sp.comps, sp.empty = nil, true
+				}
 				b := NewSess(ref.Cfg0, Opts{NoTrans: true})
 				cp := &capture{s: b, byOp: map[int][]string{}}
-				cb := listener.NewCallback(cp.sink, event.Subscription(sp.subs), b.ids(sp.comps)...)
-				b.W.SetListener(&cb)
+				b.W.SetListener(mkListener(b, sp, cp.sink))
 				for _, op := range ref.Log {
 					b.Do(op)
 					if b.Failed() {
@@ -237,7 +264,7 @@ func caseC12(c *Ctx) {
 					break
 				}
 				exp, n, total := expectedFor(ref, sp)
-				if !cmpStreams(ref, fmt.Sprintf("listener subscribed to types %06b, components %v", sp.subs, sp.comps), exp, cp.byOp) {
+				if !cmpStreams(ref, fmt.Sprintf("listener subscribed to types %06b, components %v (given but empty: %v)", sp.subs, sp.comps, sp.empty), exp, cp.byOp) {
 					break
 				}
 				if n > 0 && n < total {
